@@ -53,6 +53,29 @@ and read_items k : exprs =
   | "s" -> let e = read_expr () in EStar (e, read_items (k - 1))
   | s -> failwith ("item " ^ s)
 
+let read_v3 () = let x = next_q () in let y = next_q () in let z = next_q () in { vx = x; vy = y; vz = z }
+let read_sx () : sx = match next () with
+  | "sc" -> SC (next_q ()) | "sl" -> SL (nat_of_int (next_int ())) | s -> failwith ("sx " ^ s)
+let read_rx () : rx = match next () with
+  | "rc" -> let c = next_q () in let s = next_q () in RC (c, s)
+  | "rl" -> let i = next_int () in let j = next_int () in RL (nat_of_int i, nat_of_int j)
+  | s -> failwith ("rx " ^ s)
+let rec read_vexpr () : vexpr =
+  match next () with
+  | "c" -> EC (read_v3 ())
+  | "r" -> ER (nat_of_int (next_int ()))
+  | "d" -> ED (nat_of_int (next_int ()))
+  | "g" -> EG (nat_of_int (next_int ()))
+  | "bin" -> let sub = next_bool () in let a = read_vexpr () in let b = read_vexpr () in EVBin (sub, a, b)
+  | "rel" -> let a = read_vexpr () in let b = read_vexpr () in ERel (a, b)
+  | "tl" -> let sub = next_bool () in let t = read_v3 () in let b = read_vexpr () in ETL (sub, t, b)
+  | "tr" -> let sub = next_bool () in let a = read_vexpr () in let t = read_v3 () in ETR (sub, a, t)
+  | "mul" -> let a = read_vexpr () in let k = read_sx () in EMul (a, k)
+  | "rmul" -> let k = read_sx () in let a = read_vexpr () in ERMul (k, a)
+  | "div" -> let a = read_vexpr () in let k = read_sx () in EDiv (a, k)
+  | "rot" -> let a = read_vexpr () in let r = read_rx () in ERot (a, r)
+  | s -> failwith ("vexpr " ^ s)
+
 let string_of_q (q : q) : string = let r = qred q in string_of_z r.qnum ^ "/" ^ string_of_z (Zpos r.qden)
 let string_of_sc = function
   | SInt z -> "I " ^ string_of_z z
@@ -99,6 +122,30 @@ let handle (line : string) : string =
       let ss = read_n k (fun () -> let l = next_q () in let u = next_q () in (l, u)) in
       let (a, b) = if fixed then hypot_support_fixed2 ss else hypot_support_asis2 ss in
       string_of_q a ^ " " ^ string_of_q b
+  | "V" ->   (* V fixed | nvec (i x y z)* | nscal (i q)* | vexpr  ->  <plain python> | <capture + sampleGiven> *)
+      let fixed = next_bool () in
+      let _ = next () in
+      let k = next_int () in
+      let vt = Hashtbl.create 16 in
+      for _ = 1 to k do
+        let i = next_int () in let x = next_q () in let y = next_q () in let z = next_q () in
+        Hashtbl.replace vt i { vx = x; vy = y; vz = z } done;
+      let _ = next () in
+      let m = next_int () in
+      let st = Hashtbl.create 16 in
+      for _ = 1 to m do let i = next_int () in let q = next_q () in Hashtbl.replace st i q done;
+      let _ = next () in
+      let zq = { qnum = Z0; qden = XH } in
+      let sigma (i : nat) = try Hashtbl.find vt (int_of_nat i) with Not_found -> { vx = zq; vy = zq; vz = zq } in
+      let rho (i : nat) = try Hashtbl.find st (int_of_nat i) with Not_found -> zq in
+      let e = read_vexpr () in
+      let sv = function None -> "ZERO" | Some v -> "OK " ^ string_of_q v.vx ^ " " ^ string_of_q v.vy ^ " " ^ string_of_q v.vz in
+      let spec = sv (veval sigma rho e) in
+      let cap = (match vcap fixed vzero_all e with
+        | COk n -> sv (nev sigma rho n) ^ " " ^ (match cls_of n with CConst -> "const" | CVec -> "vec" | CDist -> "vdist" | COpd -> "opd")
+        | CZero -> "ZERO"
+        | CAttr -> "ATTR") in
+      spec ^ " | " ^ cap
   | s -> failwith ("cmd " ^ s)
 
 let () =
